@@ -60,7 +60,7 @@ def sample_text(rng, enc):
 
 
 def generate(rng, tier):
-    n = 500 if tier == "quick" else 150000
+    n = 2000 if tier == "quick" else 150000
     for _ in range(n):
         items = items_pool(rng)
         fixed, ref, uc, lk, adj = len_spec(rng)
@@ -129,7 +129,7 @@ def generate(rng, tier):
         e = ["str", S(enc), fixed, ref, lk, uc, adj, term, lead, bo]
         yield f"enc {sx(e)} {hx(data)} {pos} {sx(items)}", f"string-{delim}"
     # decoder stream: adversarial byte strings through the whole-buffer path (validates the codec model)
-    m = 600 if tier == "quick" else 200000
+    m = 2400 if tier == "quick" else 200000
     for _ in range(m):
         enc = rng.choice(ENCODINGS)
         k = rng.randrange(0, 9)
